@@ -1,7 +1,7 @@
 from vf.core import Ob
 
 META = dict(
-    level='proof',
+    level='proof', jobs=8,
     bounds='Touchstone loader on EVERY byte string of length 1..3 (quick) / 4 (thorough), optionally after a concrete prefix ("#", "# HZ ", "[VERSION] 2.0\\n#", ...), '
            'followed by end of file; unwinding assertions prove termination within the bound',
     outside='inputs longer than prefix + 3..4 arbitrary bytes; NPD loader, vnacal_load and YAML import (libyaml is a binary without source: not encodable); '
